@@ -125,6 +125,14 @@ func c05Idioms() []c05Idiom {
 				"char(fl)", "string(f)", "string(u)", "bytes(s + s)", "time(n).foo", "is_int()",
 			}[r.Intn(46)]}
 		}},
+		{name: "rangeEdges", lines: func(r *plan.Rng) []string {
+			// ranges of a handful of elements whose bounds sit at the ends of the int range
+			return []string{"r = " + []string{
+				"range(9223372036854775800, 9223372036854775807, 5)", "range(9223372036854775806, 9223372036854775807)", "range(-9223372036854775800, -9223372036854775807, 5)",
+				"range(9223372036854775807, 9223372036854775800, 3)", "range(-9223372036854775807, -9223372036854775800, 9223372036854775807)", "range(0, 9223372036854775807, 9223372036854775807)",
+				"range(9223372036854775807, 9223372036854775807)", "range(1, 9223372036854775807, 4611686018427387904)",
+			}[r.Intn(8)], "r = len(r)"}
+		}},
 		{name: "format", lines: func(r *plan.Rng) []string {
 			return []string{"r = " + []string{
 				"format()", "format(5)", "format(\"%d\", \"x\")", "format(\"%*d\", 1000, 5)", "format(\"%.*f\", -1, 2.0)", "format(\"%[5]d\", 1)", "format(\"%!\", 1)",
